@@ -17,7 +17,7 @@ let rec dump b (t : elt tree) =
 
 let dump_s t = let b = Buffer.create 256 in dump b t; Buffer.contents b
 let inv_s t = if rb_check elt_cmp t then "ok" else "MODEL-INV"
-let arg_of tok = int_of_string (String.sub tok 1 (String.length tok - 1))
+let arg_of tok = if String.length tok < 2 then 0 else int_of_string (String.sub tok 1 (String.length tok - 1))
 let split_ops s = List.filter (fun x -> x <> "") (String.split_on_char ' ' s)
 
 exception Null_deref
@@ -70,6 +70,7 @@ let run_lyds ty place every ops =
   let nops = List.length ops in
   let s = ref { sibs = []; rbt = None } and pool = ref [] and next = ref 0 in
   let src = ref { sibs = []; rbt = None } in
+  let chain = ref None in
   let after = String.length place > 1 && place.[1] = '2' in
   let out = Buffer.create 1024 in
   let rec remove_at i l = match l with [] -> [] | y :: r -> if i = 0 then r else y :: remove_at (i - 1) r in
@@ -96,6 +97,9 @@ let run_lyds ty place every ops =
               (match lyds_unlink elt_cmp elt_ideq !s (nat_of_int a) with
                | None -> raise Null_deref
                | Some (s', carries) ->
+                   (* 0 no metadata, 1 metadata with a one-node tree, 2 metadata whose tree pointer is NULL (the copy a
+                      duplicated leader got): an alone leader keeps what it has *)
+                   let carries = if carries then 1 else (match !s.sibs, !s.rbt with [_], Some Leaf -> 2 | _ -> 0) in
                    s := s';
                    if tok.[0] = 'u' then pool := !pool @ [(x, carries)];
                    "-")
@@ -104,7 +108,9 @@ let run_lyds ty place every ops =
             else
               let (x, carries) = List.nth !pool a in
               pool := remove_at a !pool;
-              (match lyds_insert elt_cmp elt_ideq !s x carries with None -> raise Null_deref | Some s' -> s := s'; "+")
+              (match lyds_insert elt_cmp elt_ideq !s x (carries = 1) with
+               | None -> raise Null_deref
+               | Some s' -> s := (if carries = 2 then dup_first_meta true !s s' else s'); "+")
         | 'q' -> if List.exists (fun (k, _) -> int_of_z k = a) !s.sibs then "1" else "0"
         | 'c' ->
             let x = mk_elt a !next in
@@ -120,7 +126,20 @@ let run_lyds ty place every ops =
               (* the duplicates get their identities in source order *)
               let xs = List.map (fun (k, _) -> let x = (k, n_of_int !next) in incr next; x) !src.sibs in
               let src_meta = !src.rbt <> None in
+              let top = String.length place > 0 && place.[0] = 't' in
               let r =
+                if top then begin
+                  (* duplicates without parent (lyd_dup_siblings into nothing), then lyd_insert_sibling of the chain: one node
+                     goes the lyd_insert_node way, several are moved (lyds_merge) *)
+                  let c = if a = 1 || a = 4 then Some (lyds_dup_nolyds src_meta { sibs = []; rbt = None } xs)
+                          else lyds_dup elt_cmp elt_ideq true false src_meta { sibs = []; rbt = None } xs in
+                  match c with
+                  | None -> None
+                  | Some c ->
+                      (match c.sibs with
+                       | [x] when !s.sibs <> [] -> lyds_insert elt_cmp elt_ideq !s x false
+                       | _ -> lyds_merge elt_cmp elt_ideq !s c)
+                end else
                 match a with
                 | 0 | 2 -> lyds_dup elt_cmp elt_ideq true after src_meta !s xs
                 | 1 | 4 -> Some (lyds_dup_nolyds src_meta !s xs)
@@ -138,6 +157,25 @@ let run_lyds ty place every ops =
                                first := false; Some st')) (Some !s) xs in
               match r with None -> raise Null_deref | Some s' -> s := s'; "+"
             end
+        | 's' ->
+            (* lyd_unlink_siblings at the instance at position a: it and all following siblings become the chain *)
+            if !chain <> None || a < 0 || a >= n then "x"
+            else (match lyds_split elt_cmp elt_ideq !s (nat_of_int a) with
+                  | None -> raise Null_deref
+                  | Some (s1, c) -> s := s1; chain := Some c; "-")
+        | 'm' ->
+            (* lyd_insert_child / lyd_insert_sibling of the chain: one single node goes the lyd_insert_node way (siblings
+               behind the (leaf-)list exist exactly for the placements *2), several nodes are moved (lyds_merge) *)
+            (match !chain with
+             | None -> "x"
+             | Some c ->
+                 chain := None;
+                 let r =
+                   match c.sibs with
+                   | [x] when not after ->
+                       lyds_insert elt_cmp elt_ideq !s x (match c.rbt with Some (Node (_, _, _, _)) -> true | _ -> false)
+                   | _ -> lyds_merge elt_cmp elt_ideq !s c in
+                 (match r with None -> raise Null_deref | Some s' -> s := s'; "+"))
         | 'g' ->
             (* lyd_merge_tree / lyd_merge_siblings of the source list; 1 = LYD_MERGE_DESTRUCT: the source instances
                themselves move, the pool holds the red-black nodes of the source tree; 0: duplicates (new identities for
@@ -170,7 +208,7 @@ let run_lyds ty place every ops =
         Buffer.add_string out ";m=";
         Buffer.add_string out (match !s.rbt with None -> "-" | Some _ -> "0");
         Buffer.add_string out ";p=";
-        Buffer.add_string out (String.concat "," (List.map (fun (x, c) -> show_elt x ^ (if c then "T" else "")) !pool))
+        Buffer.add_string out (String.concat "," (List.map (fun (x, c) -> show_elt x ^ (if c = 1 then "T" else if c = 2 then "m" else "")) !pool))
       end else Buffer.add_char out '~';
       Buffer.add_char out '/';
       (* model-side invariant: the tree (when present) satisfies rb_check and its in-order walk is the sibling order *)
